@@ -395,36 +395,73 @@ def decoder_advance(P, R):
         if not any(t.ev['k'] == 'store' and t.ev['lhs'].get('k') == 'idx' and on_path(t.ev['lhs'], 'vec') for b in region for t in f.block_sites(b)):
             continue
 
+        # offsets (relative to the backslash) of the scan variable and of every pointer copied from it: an escape
+        # decoder moved into a helper works on its own copy and hands the new position back
+        def hexidx2(r, m):
+            l, op, rr = r
+            if isinstance(l, dict) and l.get('k') == 'bin' and l['op'] == '&' and l['l'].get('k') == 'idx' and is_var(l['l']['base'], 'char_types') and const_of(rr) == 0:
+                for x in walk(l['l']['index']):
+                    if x.get('k') == 'idx' and is_var(x['base']) and x['base']['name'] in m and const_of(x['index']) is not None:
+                        return m[x['base']['name']] + const_of(x['index']), op == '!='
+            return None
+
+        def ptr_value(e, m):
+            """offset denoted by a pointer expression over tracked pointers, or None"""
+            if is_var(e) and e['name'] in m:
+                return m[e['name']]
+            if isinstance(e, dict) and e.get('k') == 'bin' and e.get('op') in ('+', '-'):
+                a, c = ptr_value(e['l'], m), const_of(e['r'])
+                if a is not None and isinstance(c, int):
+                    return a + c if e['op'] == '+' else a - c
+                a, c = ptr_value(e['r'], m), const_of(e['l'])
+                if a is not None and isinstance(c, int) and e['op'] == '+':
+                    return a + c
+            return None
+
         def on_event(st, s):
-            adv, hx, done = st
+            mt, hx, done = st
             ev = s.ev
             if done:
                 return st
-            if ev['k'] == 'store' and is_var(ev.get('lhs'), endv):
-                if ev.get('op') == '++':
-                    return (adv + 1, hx, done)
-                if ev.get('op') == '+=' and const_of(ev.get('rhs')) is not None:
-                    return (adv + const_of(ev['rhs']), hx, done)
-                return (99, hx, done)
+            m = dict(mt)
+            if ev['k'] == 'store' and is_var(ev.get('lhs')):
+                v = ev['lhs']['name']
+                if v in m and ev.get('op') == '++':
+                    m[v] += 1
+                elif v in m and ev.get('op') == '--':
+                    m[v] -= 1
+                elif v in m and ev.get('op') in ('+=', '-=') and const_of(ev.get('rhs')) is not None:
+                    m[v] += const_of(ev['rhs']) if ev['op'] == '+=' else -const_of(ev['rhs'])
+                elif ev.get('op') == '=':
+                    pv = ptr_value(ev.get('rhs'), m) if isinstance(ev.get('rhs'), dict) else None
+                    if pv is not None:
+                        m[v] = pv
+                    elif v in m:
+                        m[v] = 99
+                elif v in m:
+                    m[v] = 99
+                m = {k: min(v2, 99) for k, v2 in m.items()}
+                return (tuple(sorted(m.items())), hx, done)
             return st
 
         def on_edge(st, e):
-            adv, hx, done = st
+            mt, hx, done = st
             if done:
                 return st
+            m = dict(mt)
             r = e.rel()
             if r:
-                h = hexidx(r)
+                h = hexidx2(r, m)
                 if h and h[1]:
-                    hx = tuple(sorted(set(hx) | {h[0] - adv}))   # offset relative to the backslash
+                    hx = tuple(sorted(set(hx) | {h[0]}))   # offset relative to the backslash
                 # back at the loop test (*end != '"'): the escape is over
                 if isinstance(r[0], dict) and r[0].get('k') == 'un' and r[0]['op'] == '*' and is_var(r[0]['e'], endv) and const_of(r[2]) == 34:
-                    return (adv, hx, True)
-            return (adv, hx, done)
+                    return (mt, hx, True)
+            return (mt, hx, done)
         # run from the escape edge
-        states = {(0, (), False)}
+        init = (((endv, 0),), (), False)
         seen = set()
-        work = [(e0.dst, (0, (), False))]
+        work = [(e0.dst, init)]
         final = set()
         while work:
             b, st = work.pop()
@@ -440,7 +477,8 @@ def decoder_advance(P, R):
                 else:
                     work.append((e.dst, st2))
         bad = []
-        for adv, hx, done in final:
+        for mt, hx, done in final:
+            adv = dict(mt).get(endv, 99)
             # adv includes the loop's own ++end: the escape itself may use 2 (backslash and escaped char)
             proven = 0
             k = 2
